@@ -103,7 +103,7 @@ CHECKS = {
         "note": "Trusted: the origins table transcription; overlap analysis (tspec.lax_safe).",
     },
     "C04": {
-        "technique": "property-based testing / fuzzing: Hypothesis-generated type expressions x data soup (arbitrary data and near-valid mutations of valid dumps) x 6 modes with an exception-validity oracle; user-code sub-check for the second sentence",
+        "technique": "property-based testing + coverage-guided fuzzing: (1) Hypothesis-generated type expressions x data soup (arbitrary data and near-valid mutations of valid dumps) x 6 modes with an exception-validity oracle, user-code sub-check for the second sentence; (2) Atheris / libFuzzer target (fuzz/c04_atheris.py): bytes -> table of generated loaders + recursively decoded datum, same oracle inside the target, saved cases re-run through the ordinary oracle",
         "text": "Exploration: every escaping exception tree must consist of LoadError nodes only; with user code raising ArithmeticError the escaping exception must not be classified as LoadError.",
         "note": "Trusted: exception flattening helper; input nesting capped (RecursionError on over-deep data not counted); ExtraKwargs excluded (documented TypeError zone).",
     },
